@@ -415,7 +415,7 @@ func genCase(r *lib.Rng, out *lib.Out, ci int) {
 		tags = append(tags, "path=host")
 	}
 	out.Add(term, map[string]any{
-		"mode": fwName, "conn_type": ctName, "server_addresser": ha, "backend_addresser": ba,
+		"mode": fwName, "conn_type": ctName, "server_addresser": fmt.Sprintf("%s %q", ha.kind, ha.data), "backend_addresser": fmt.Sprintf("%s %q", ba.kind, ba.data),
 		"virtual_host": fmt.Sprintf("%q", vhost), "server_addr": srvAddr, "remote": remote,
 		"uuid": id.String(), "properties": fmt.Sprintf("%q", props), "observed": obsDesc,
 	}, nontrivial, tags...)
